@@ -15,3 +15,5 @@ mod c15;
 mod c16;
 #[cfg(kani)]
 mod probe;
+#[cfg(kani)]
+mod c17;
